@@ -145,6 +145,8 @@ def _isinstance(it, v, c):
             return False
         return concretize(SBool(z3.Or(*[z3_bool(t) for t in ts])))
     v = concretize(v)
+    if isinstance(c, SummaryFn) and hasattr(_b, c.name) and isinstance(getattr(_b, c.name), type):
+        c = getattr(_b, c.name)
     if isinstance(v, Obj):
         if isinstance(c, ClassV):
             return c in v.cls.mro
@@ -404,7 +406,20 @@ _BUILTIN_IMPL = {
     "iter": lambda it, xs: iter(it.iterate(xs)),
     "next": lambda it, i, *d: _next(it, i, *d),
     "print": lambda it, *a, **k: None,
+    "delattr": lambda it, o, n: _delattr(it, o, n),
 }
+
+
+def _delattr(it, o, n):
+    if isinstance(o, Obj):
+        if n in o.fields:
+            del o.fields[n]
+            return None
+        raise PyRaise(AttributeError(n))
+    try:
+        delattr(o, n)
+    except AttributeError as e:
+        raise PyRaise(AttributeError(str(e)))
 
 
 def _next(it, i, *d):
